@@ -244,12 +244,8 @@ func VerifC08Buffer() {
 			case vOpAndNot:
 				z.AndNot(o)
 			}
-			m0, d0 := model, dob
-			y := vArg32()
-			vsym.Assert(vBitmapHas(z, y) == vBoolOp(op, m0.has(y), d0.has(y)), "exact-set")
-			vBitmapWf(z, false)
-			vsym.Reach("end")
-			return
+			// requires concrete keys on both sides (akeys = bkeys = 4): the model of the result is built slot-wise
+			model = vBDescBinop(op, model, dob)
 		case 8:
 			// derived bitmap mutated in turn; the zero-copy bitmap as argument
 			c := z.Clone()
@@ -283,4 +279,43 @@ func vDumpBitmap(z *Bitmap) {
 		}
 		vsym.Observe(999999)
 	}
+}
+
+// description of (a OP b) for descriptions whose keys are concrete
+func vBDescBinop(op int, a, b *vBDesc) *vBDesc {
+	nd := &vBDesc{}
+	for j, k := range a.keys {
+		var partner *vDesc
+		for i, kb := range b.keys {
+			if kb == k && !b.isDead(i) {
+				partner = b.cs[i]
+			}
+		}
+		var c *vDesc
+		switch {
+		case partner != nil:
+			c = &vDesc{kind: vKOp, op: op, l: a.cs[j], r: partner}
+		case op == vOpAnd:
+			c = &vDesc{kind: vKArray, inactive: true}
+		default:
+			c = a.cs[j]
+		}
+		nd.keys = append(nd.keys, k)
+		nd.cs = append(nd.cs, c)
+		nd.dead = append(nd.dead, a.isDead(j))
+	}
+	if op == vOpOr || op == vOpXor {
+		for i, kb := range b.keys {
+			found := false
+			for j, k := range a.keys {
+				if k == kb && !a.isDead(j) {
+					found = true
+				}
+			}
+			nd.keys = append(nd.keys, kb)
+			nd.cs = append(nd.cs, b.cs[i])
+			nd.dead = append(nd.dead, vsym.Or(found, b.isDead(i)))
+		}
+	}
+	return nd
 }
